@@ -95,4 +95,23 @@ def ubigPow (W : Nat) (a : TRepr) (exp : Nat) : TRepr :=
 def ibigPow (W : Nat) (a : SRepr) (exp : Nat) : SRepr :=
   withSign (ubigPow W a.mag exp) (a.neg && exp % 2 == 1)
 
+/-- `exp * shift` is computed in `usize`; 64 bits on the targets the harness runs on -/
+def usizeBits : Nat := 64
+
+/-- the input class on which `UBig::pow` / `IBig::pow` leave the mirrored path: the product
+    `exp * shift` does not fit `usize`.  The exact result then has at least `2^64` bits, more than
+    any `Buffer` can hold (`MAX_CAPACITY · WORD_BITS < 2^64`), so the property requires the documented
+    allocation panic; the code instead overflows the multiplication (debug: undocumented panic,
+    release: wraps and returns a wrong value) — finding `corpus/C01/pow_shift_overflow.case`. -/
+def powShiftOverflows (n exp : Nat) : Bool :=
+  trailingZeros n != 0 && decide (2 ^ usizeBits ≤ exp * trailingZeros n)
+
+/-- `UBig::pow` as the property requires it for a `usize` exponent -/
+def ubigPowChecked (W : Nat) (a : TRepr) (exp : Nat) : Except PanicKind TRepr :=
+  if powShiftOverflows (a.value W) exp then .error .allocTooMuch else .ok (ubigPow W a exp)
+
+/-- `IBig::pow` likewise -/
+def ibigPowChecked (W : Nat) (a : SRepr) (exp : Nat) : Except PanicKind SRepr :=
+  if powShiftOverflows (a.mag.value W) exp then .error .allocTooMuch else .ok (ibigPow W a exp)
+
 end Dashu.Model
